@@ -7,7 +7,8 @@ CONSTANTS
   Variant = "intended"
   MaxPert = 2
   Rounds = 26
-  OwnConds <- BBoth
+  OwnConds <- OCAll
+  GenSels <- BBoth
   ScaleRevs <- BBoth
 INVARIANTS C07_OneMove C07_HookOrder C07_Gate C07_OldStay C07_NonRevNow C08_Linear C07_StuckWaits
 PROPERTIES C01_QuietWhenDone
